@@ -6,7 +6,7 @@
    convolution plan of the real function), tools/props/C01.py (entries of real runs against reference quadrature). *)
 From Coq Require Import Reals ZArith List Bool Arith Lra.
 From Coquelicot Require Import Coquelicot.
-From Yad Require Import Base Interp InterpTheorems Conv ConvTheorems ScaleVar CombTheorems.
+From Yad Require Import Base Interp InterpTheorems Conv ConvTheorems ConvGen ScaleVar CombTheorems.
 Import ListNotations.
 
 (* ---- the integral the code takes IS the convolution: cutting the range at x/a loses nothing ... *)
@@ -53,6 +53,33 @@ Proof.
   unfold tensor_at. rewrite map_app. apply fsum_app.
 Qed.
 Print Assumptions C01_accumulation.
+
+(* ---------------- kernels that are unbounded at z = 1 (every coefficient function with ln^k(1-z)): the Riemann-integrability
+   hypotheses above cannot be met when the basis function does not vanish at x; the integral is then the improper one and the same
+   algebra holds for it (ConvGen.v) *)
+Theorem C01_linear_improper k p q c e x v w : is_conv k p x v -> is_conv k q x w ->
+  is_conv k (fun u => (c * p u + e * q u)%R) x (c * v + e * w)%R.
+Proof. exact (conv_linear_gen k p q c e x v w). Qed.
+Print Assumptions C01_linear_improper.
+Theorem C01_contraction_with_pdf_improper k (fs : list (R * (R -> R))) (vs : list R) x :
+  List.Forall2 (fun cp v => is_conv k (snd cp) x v) fs vs ->
+  is_conv k (span fs) x (fold_right (fun cv acc => (fst (fst cv) * snd cv + acc)%R) 0%R (combine fs vs)).
+Proof. exact (contraction_with_pdf_gen k fs vs x). Qed.
+Print Assumptions C01_contraction_with_pdf_improper.
+Theorem C01_value_unique_improper k p x v w : is_conv k p x v -> is_conv k p x w -> v = w.
+Proof. exact (is_conv_unique k p x v w). Qed.
+Print Assumptions C01_value_unique_improper.
+(* where the proper integral exists and depends continuously on its upper limit, both notions give the same number *)
+Theorem C01_proper_is_improper k p x : (x < 1)%R ->
+  (forall b, (x <= b <= 1)%R -> ex_RInt (integrand k p x) x b) ->
+  continuity_pt (fun b => RInt (integrand k p x) x b) 1 ->
+  is_conv k p x (conv_spec k p x).
+Proof. exact (proper_is_improper k p x). Qed.
+Print Assumptions C01_proper_is_improper.
+(* non-vacuity: the kernel ln(1-z) has an (improper) convolution *)
+Example C01_log_kernel_example :
+  is_conv {| r_reg := fun z => ln (1 - z); r_sing := fun _ => 0%R; r_loc := fun _ => 0%R |} (fun u => ((1 / 2) / u)%R) (1 / 2)%R (-1 - Fex (1 / 2))%R.
+Proof. exact log_kernel_has_a_convolution. Qed.
 
 Open Scope nat_scope.
 (* ---- the basis: every area lies in its block; p_j is 1 at its node and 0 at the others (the LO entry is the
